@@ -27,7 +27,8 @@ pub fn reset_globals() {
     *crate::discv5::PERMIT_BAN_LIST.write() = crate::PermitBanList::default();
     let m = &crate::metrics::METRICS;
     m.active_sessions.store(0, Ordering::Relaxed);
-    m.unsolicited_requests_per_window.store(0, Ordering::Relaxed);
+    m.unsolicited_requests_per_window
+        .store(0, Ordering::Relaxed);
     m.bytes_sent.store(0, Ordering::Relaxed);
     m.bytes_recv.store(0, Ordering::Relaxed);
     m.ipv4_contactable.store(false, Ordering::Relaxed);
@@ -43,3 +44,166 @@ pub fn permit_ban_snapshot() -> crate::PermitBanList {
 pub fn permit_ban_set(list: crate::PermitBanList) {
     *crate::discv5::PERMIT_BAN_LIST.write() = list;
 }
+
+/// Facade over the crate-private iterative query state machines and the query pool.
+pub mod query {
+    pub use crate::query_pool::{QueryId, QueryPool, QueryPoolState, QueryState, TargetKey};
+    use crate::{
+        kbucket::{Key, PredicateKey},
+        query_pool::{FindNodeQuery, FindNodeQueryConfig, PredicateQuery, PredicateQueryConfig},
+    };
+    use enr::NodeId;
+    use std::time::{Duration, Instant};
+
+    /// A stand-in for a node record: an id plus the flag the predicate looks at.
+    #[derive(Clone, Debug, PartialEq, Eq)]
+    pub struct Rec {
+        pub id: NodeId,
+        pub flag: bool,
+    }
+    impl From<Rec> for NodeId {
+        fn from(r: Rec) -> NodeId {
+            r.id
+        }
+    }
+    impl From<&Rec> for NodeId {
+        fn from(r: &Rec) -> NodeId {
+            r.id
+        }
+    }
+
+    /// Query target.
+    #[derive(Clone, Debug)]
+    pub struct Target(pub NodeId);
+    impl TargetKey<NodeId> for Target {
+        fn key(&self) -> Key<NodeId> {
+            self.0.into()
+        }
+    }
+
+    pub type Pool = QueryPool<Target, NodeId, Rec>;
+
+    fn find_cfg(
+        parallelism: usize,
+        num_results: usize,
+        peer_timeout: Duration,
+    ) -> FindNodeQueryConfig {
+        FindNodeQueryConfig {
+            parallelism,
+            num_results,
+            peer_timeout,
+        }
+    }
+    fn pred_cfg(
+        parallelism: usize,
+        num_results: usize,
+        peer_timeout: Duration,
+    ) -> PredicateQueryConfig {
+        PredicateQueryConfig {
+            parallelism,
+            num_results,
+            peer_timeout,
+        }
+    }
+
+    /// The real `FindNodeQuery`.
+    pub struct FindNode(FindNodeQuery<NodeId>);
+    impl FindNode {
+        pub fn new(
+            parallelism: usize,
+            num_results: usize,
+            peer_timeout: Duration,
+            target: NodeId,
+            peers: Vec<NodeId>,
+        ) -> Self {
+            FindNode(FindNodeQuery::with_config(
+                find_cfg(parallelism, num_results, peer_timeout),
+                target.into(),
+                peers.into_iter().map(Key::from),
+            ))
+        }
+        pub fn on_success(&mut self, peer: &NodeId, closer: Vec<NodeId>) {
+            self.0.on_success(peer, closer)
+        }
+        pub fn on_failure(&mut self, peer: &NodeId) {
+            self.0.on_failure(peer)
+        }
+        pub fn next(&mut self, now: Instant) -> QueryState<NodeId> {
+            self.0.next(now)
+        }
+        pub fn into_result(self) -> Vec<NodeId> {
+            self.0.into_result()
+        }
+    }
+
+    /// The real `PredicateQuery`; the predicate is `rec.flag`.
+    pub struct Predicate(PredicateQuery<NodeId, Rec>);
+    impl Predicate {
+        pub fn new(
+            parallelism: usize,
+            num_results: usize,
+            peer_timeout: Duration,
+            target: NodeId,
+            peers: Vec<(NodeId, bool)>,
+        ) -> Self {
+            Predicate(PredicateQuery::with_config(
+                pred_cfg(parallelism, num_results, peer_timeout),
+                target.into(),
+                peers.into_iter().map(|(id, predicate_match)| PredicateKey {
+                    key: id.into(),
+                    predicate_match,
+                }),
+                |r: &Rec| r.flag,
+            ))
+        }
+        pub fn on_success(&mut self, peer: &NodeId, closer: &[Rec]) {
+            self.0.on_success(peer, closer)
+        }
+        pub fn on_failure(&mut self, peer: &NodeId) {
+            self.0.on_failure(peer)
+        }
+        pub fn next(&mut self, now: Instant) -> QueryState<NodeId> {
+            self.0.next(now)
+        }
+        pub fn into_result(self) -> Vec<NodeId> {
+            self.0.into_result()
+        }
+    }
+
+    pub fn pool_add_findnode(
+        pool: &mut Pool,
+        parallelism: usize,
+        num_results: usize,
+        peer_timeout: Duration,
+        target: NodeId,
+        peers: Vec<NodeId>,
+    ) -> QueryId {
+        pool.add_findnode_query(
+            find_cfg(parallelism, num_results, peer_timeout),
+            Target(target),
+            peers.into_iter().map(Key::from),
+        )
+    }
+
+    pub fn pool_add_predicate(
+        pool: &mut Pool,
+        parallelism: usize,
+        num_results: usize,
+        peer_timeout: Duration,
+        target: NodeId,
+        peers: Vec<(NodeId, bool)>,
+    ) -> QueryId {
+        pool.add_predicate_query(
+            pred_cfg(parallelism, num_results, peer_timeout),
+            Target(target),
+            peers.into_iter().map(|(id, predicate_match)| PredicateKey {
+                key: id.into(),
+                predicate_match,
+            }),
+            |r: &Rec| r.flag,
+        )
+    }
+}
+
+/// Facade over the crate-private inbound packet filter.
+pub use crate::socket::verif::FilterFacade;
